@@ -485,6 +485,16 @@ func (g *gen) content(name string, special bool) (b []byte, class string, marked
 
 func (g *gen) extFile(name string, special bool) (target string, content []byte, class string, marked bool) {
 	g.extN++
+	if special && g.rng.IntN(6) == 0 {
+		// a regular file whose size as reported by stat (0) says nothing about its content
+		for _, pf := range []string{"/proc/version", "/proc/sys/kernel/ostype"} {
+			if b, err := os.ReadFile(pf); err == nil && len(b) > 0 {
+				if fi, err := os.Stat(pf); err == nil && fi.Mode().IsRegular() && fi.Size() < int64(len(b)) {
+					return pf, b, "stat-size-smaller-than-content", false
+				}
+			}
+		}
+	}
 	fn := fmt.Sprintf("f%d-%s", g.extN, strings.Map(func(r rune) rune {
 		if r == '/' || r == 0 {
 			return '_'
